@@ -20,10 +20,10 @@ func init() {
 		Rule: "a case is (spec string, argv, every subset of the <=5 declared options backed by a set environment variable): specs are (i) random bytes and random strings over the spec alphabet, " +
 			"(ii) concatenations of fragments biased to dangerous shapes (nested repetitions of optional groups, -- inside repetitions and choices, long | chains, deep bracket nesting up to 64), " +
 			"(iii) grammar-derived specs (depth<=3, spec-level --), (iv) ambiguous repetitions such as '(X | Y)... -a' on lines of 20-64 tokens that are rejected only after every split was tried (2% of the cases); argv = random mix of declared option spellings, positionals, --, -, junk (<=16 tokens). " +
-			"Refuting events: worker death, a panic other than the positioned spec error, per-case CPU budget (5 CPU-seconds on the thread that runs the library: clock_gettime on the thread CPU clock) exceeded, spec error position outside [0,len(spec)], Error() panicking, " +
+			"Refuting events: worker death, a panic other than the positioned spec error, per-case CPU budget (20 CPU-seconds on the thread that runs the library: clock_gettime on the thread CPU clock) exceeded, spec error position outside [0,len(spec)], Error() panicking, " +
 			"an outcome that is neither acceptance nor a returned usage error. non-trivial = spec of >=3 bytes; distinct by (spec, argv).",
 		Assumptions: []string{
-			"'never hangs' is restated as bounded progress: every case (compile + parse under all env subsets) within 5 CPU-seconds, inputs bounded (spec <= 256 bytes, nesting <= 64, <= 5 options, argv <= 16 tokens, 64 for the long-line family)",
+			"'never hangs' is restated as bounded progress: every case (compile + parse under all env subsets) within 20 CPU-seconds per library call, inputs bounded (spec <= 256 bytes, nesting <= 64, <= 5 options, argv <= 16 tokens, 64 for the long-line family)",
 			"stack bounded with debug.SetMaxStack(64 MiB), heap watchdog at 3 GiB",
 		},
 		Cases: tiered(60000, 3000000),
